@@ -25,7 +25,37 @@ fn ids_only(o: &ImplOut) -> Result<Vec<u32>, String> {
     }
 }
 
-fn check_variant(acc: &mut Acc, sp: &Spelling, dev: &[(usize, usize)], canon: &str, canon_res: &[Result<Vec<u32>, String>], docs: &[(Value, AddrMap)]) -> bool {
+/// a difference between two spellings is licensed only if the reference model, with the deviation switches of the
+/// findings listed for C13 switched on, reproduces BOTH observed results exactly
+fn explained(run: &Run, acc: &mut Acc, canon: &str, variant: &str, doc: &Value, a: &Result<Vec<u32>, String>, b: &Result<Vec<u32>, String>) -> bool {
+    use crate::checks::common::DocCtx;
+    use crate::model::eval::EDev;
+    let allowed = run.findings.edev_mask("C13");
+    if allowed == 0 {
+        return false;
+    }
+    let (qa, qb) = match (rfc_parse(canon), rfc_parse(variant)) {
+        (Ok(x), Ok(y)) => (x.0, y.0),
+        _ => return false,
+    };
+    let dc = DocCtx::new(doc);
+    for mask in crate::findings::candidate_masks(allowed) {
+        let dev = EDev::from_mask(mask);
+        let ma = dc.model_ids(&qa, dev);
+        let mb = dc.model_ids(&qb, dev);
+        if let (Some(ma), Some(mb), Ok(a), Ok(b)) = (ma, mb, a, b) {
+            if &ma == a && &mb == b {
+                for id in run.findings.ids_for_mask("C13", mask) {
+                    acc.known(&id, || format!("{:?} vs {:?} on {}", canon, variant, doc));
+                }
+                return true;
+            }
+        }
+    }
+    false
+}
+
+fn check_variant(run: &Run, acc: &mut Acc, sp: &Spelling, dev: &[(usize, usize)], canon: &str, canon_res: &[Result<Vec<u32>, String>], docs: &[(Value, AddrMap)]) -> bool {
     let s = sp.render(dev);
     if s == canon {
         return true;
@@ -40,6 +70,9 @@ fn check_variant(acc: &mut Acc, sp: &Spelling, dev: &[(usize, usize)], canon: &s
     for (k, (doc, am)) in docs.iter().enumerate() {
         let r = ids_only(&imp::run_with_path(&s, doc, am));
         if r != canon_res[k] {
+            if explained(run, acc, canon, &s, doc, &canon_res[k], &r) {
+                return true;
+            }
             acc.viol(
                 format!("{:?} and {:?} are equivalent spellings but on {} the first gives {:?} and the second {:?}", canon, s, doc, canon_res[k], r),
                 json!({"kind": "spelling", "class": format!("{} deviation(s)", dev.len()), "canonical": canon, "variant": s, "doc": doc}),
@@ -184,7 +217,7 @@ pub fn run(tier: &str) -> i32 {
             acc.max("max_choice_sites", sites.len() as u64);
             for &s in &sites {
                 for a in 1..sp.alts(s) {
-                    check_variant(&mut acc, &sp, &[(s, a)], &canon, &canon_res, &docs);
+                    check_variant(&run, &mut acc, &sp, &[(s, a)], &canon, &canon_res, &docs);
                 }
             }
             if n % pair_every == 0 {
@@ -192,7 +225,7 @@ pub fn run(tier: &str) -> i32 {
                     for &s2 in &sites[i + 1..] {
                         for a1 in 1..sp.alts(s1) {
                             for a2 in 1..sp.alts(s2) {
-                                check_variant(&mut acc, &sp, &[(s1, a1), (s2, a2)], &canon, &canon_res, &docs);
+                                check_variant(&run, &mut acc, &sp, &[(s1, a1), (s2, a2)], &canon, &canon_res, &docs);
                             }
                         }
                     }
@@ -206,7 +239,7 @@ pub fn run(tier: &str) -> i32 {
                             for a1 in 1..sp.alts(sites[i]) {
                                 for a2 in 1..sp.alts(sites[j]) {
                                     for a3 in 1..sp.alts(sites[k]) {
-                                        check_variant(&mut acc, &sp, &[(sites[i], a1), (sites[j], a2), (sites[k], a3)], &canon, &canon_res, &docs);
+                                        check_variant(&run, &mut acc, &sp, &[(sites[i], a1), (sites[j], a2), (sites[k], a3)], &canon, &canon_res, &docs);
                                     }
                                 }
                             }
@@ -217,9 +250,9 @@ pub fn run(tier: &str) -> i32 {
             }
             // every site deviating at once (first alternative), and every blank site with two blanks
             let all: Vec<(usize, usize)> = sites.iter().map(|s| (*s, 1)).collect();
-            check_variant(&mut acc, &sp, &all, &canon, &canon_res, &docs);
+            check_variant(&run, &mut acc, &sp, &all, &canon, &canon_res, &docs);
             let all_last: Vec<(usize, usize)> = sites.iter().map(|s| (*s, sp.alts(*s) - 1)).collect();
-            check_variant(&mut acc, &sp, &all_last, &canon, &canon_res, &docs);
+            check_variant(&run, &mut acc, &sp, &all_last, &canon, &canon_res, &docs);
             acc
         })
         .reduce(Acc::new, Acc::merge);
